@@ -62,9 +62,15 @@ def affected_paths(s):
     return [s["path"]] if "path" in s else []
 
 
-def mark_unknown(w, s):
+def mark_unknown(w, s, pre_dims=None):
     """Everything the faulted step was writing is excluded from equality until rewritten."""
     op = s["op"]
+    for path, before in (pre_dims or {}).items():
+        fm = w.files.get(path)
+        if fm is not None:
+            for d, dv in fm.dims.items():
+                if d not in before:
+                    dv["unknown"] = True      # a dimension created by the faulted step (labels / metadata may be partial)
     for path in affected_paths(s):
         if not FS.exists(path):
             w.files.pop(path, None)
@@ -156,6 +162,7 @@ def run_with_fault(w, s, fn):
 
 def _faulted(w, s, fn, j, n_calls, kind, fault, props, recovery_inline):
     # ---- the faulted execution
+    pre_dims = {p_: set(w.files[p_].dims) for p_ in affected_paths(s) if p_ in w.files}
     w.props = set()
     FS.begin_step(armed=(j, kind))
     crashed, out = False, "?"
@@ -184,7 +191,7 @@ def _faulted(w, s, fn, j, n_calls, kind, fault, props, recovery_inline):
         w.count(("fault:storage_error@" + site) if fired else "fault:armed_but_not_reached")
     if fired:
         w.count("fault:outcome_" + ("reported_success" if out.startswith("ok") else "reported_failure" if not crashed else "crash"))
-    mark_unknown(w, s)
+    mark_unknown(w, s, pre_dims)
     for path in list(w.files):
         if not FS.exists(path):
             del w.files[path]
